@@ -131,7 +131,16 @@ func main() {
 				args = append(args, r.Pick(argSrc))
 			}
 			noFmt := r.Chance(3)
-			call := "util.format(" + strings.Join(append([]string{jsStr(f)}, args...), ",") + ")"
+			first := jsStr(f)
+			if r.Chance(8) { // the format is whatever the first argument converts to: String(a), and "" for undefined
+				a := r.Pick(argSrc)
+				first, f = a, orc[a].str
+				if a == "undefined" {
+					f = ""
+				}
+				out.Count("first_argument", "not-a-string")
+			}
+			call := "util.format(" + strings.Join(append([]string{first}, args...), ",") + ")"
 			if noFmt {
 				call = "util.format()"
 				args = nil
@@ -174,7 +183,7 @@ func main() {
 			pr.log, pr.warn, pr.err = nil, nil, nil
 			k := 1 + r.Intn(6)
 			methods := []string{"log", "info", "debug", "warn", "error"}
-			var coqCalls, descr []string
+			var coqCalls, descr, sameArgs, sinks []string
 			var script strings.Builder
 			for i := 0; i < k; i++ {
 				m := r.Pick(methods)
@@ -191,11 +200,22 @@ func main() {
 					fOpt = "None"
 					args = nil
 				} else {
-					call = "console." + m + "(" + strings.Join(append([]string{jsStr(f)}, args...), ",") + ")"
+					first := jsStr(f)
+					if r.Chance(12) {
+						a := r.Pick(argSrc)
+						first, f = a, orc[a].str
+						if a == "undefined" {
+							f = ""
+						}
+						out.Count("first_argument", "not-a-string")
+					}
+					call = "console." + m + "(" + strings.Join(append([]string{first}, args...), ",") + ")"
 					fOpt = "(Some " + lib.Runes(f) + ")"
 				}
 				script.WriteString(call + ";\n")
 				descr = append(descr, call)
+				sameArgs = append(sameArgs, "util.format"+call[len("console."+m):])
+				sinks = append(sinks, m)
 				var coqArgs []string
 				for _, a := range args {
 					coqArgs = append(coqArgs, coqArg(orc[a]))
@@ -207,6 +227,30 @@ func main() {
 				out.Fail(len(out.Cases), "console-threw", map[string]string{"script": script.String(), "err": err.Error()})
 				out.Add("crashed", descr, false)
 				continue
+			}
+			// the property's own words: each message equals util.format of the call's arguments, computed here by a
+			// separate call in the same runtime, and goes to the sink of its method, in call order
+			{
+				var wl, ww, we []string
+				for i, e := range sameArgs {
+					v, err := vm.RunString(e)
+					if err != nil {
+						out.Fail(len(out.Cases), "format-threw", map[string]string{"call": e, "err": err.Error()})
+						continue
+					}
+					switch sinks[i] {
+					case "warn":
+						ww = append(ww, v.String())
+					case "error":
+						we = append(we, v.String())
+					default:
+						wl = append(wl, v.String())
+					}
+				}
+				if strings.Join(wl, "\x00") != strings.Join(pr.log, "\x00") || strings.Join(ww, "\x00") != strings.Join(pr.warn, "\x00") || strings.Join(we, "\x00") != strings.Join(pr.err, "\x00") {
+					out.Fail(len(out.Cases), "console-message-is-not-format-of-arguments", map[string]interface{}{"calls": descr, "log": pr.log, "warn": pr.warn, "error": pr.err,
+						"want_log": wl, "want_warn": ww, "want_error": we})
+				}
 			}
 			sink := func(xs []string) string {
 				var it []string
